@@ -34,6 +34,19 @@ CHECKS["C15"] = ("fault_enumeration", "4 C15",
     "runtime monitoring with crash enumeration: audit-hook faults, sys.monitoring line failpoints, write()-proxy faults and real SIGKILLs injected by strace at every syscall touching the cache/backup file; fresh-interpreter reload; corruption sweep",
     "Every file-system event, executed line and k-th write() of save_cache is used as an in-process fault site, and every openat/write/close/rename syscall on the cache/backup path as a real kill point (strace inject); after each the cache file must be the old or the complete new document and load in a fresh FileSet / interpreter. The strace log of an uninjected save is checked for close-before-rename ordering.")
 
+CHECKS["C10"] = ("exploration", "4 C10",
+    "runtime monitoring: client-boundary event histories (unique id per file) under a controlled task scheduler (file gates + controller thread, depth-first enumeration of completion orders), offline checkers (exactly-once, order, pairing, in-flight bound, exception propagation) plus sys.monitoring probes on FileSet.imap / FileSet.align",
+    "Every completion order that the pool window allows is enumerated for 4-6 files (thread and process pools, map and imap; observed = predicted by the window model is reported), larger and fault configurations are sampled; each history is checked offline, the imap queue bound and the align cache invariant are also probed online.")
+CHECKS["C17"] = ("exploration", "4 C17",
+    "runtime monitoring: longdouble n-form/m-form reference and residuals of the defining identities with condition-number scaled tolerances; icontract postconditions on the real functions",
+    "Thousands of generated (K, S_a, S_y) triples incl. n=m, rank-deficient and zero Jacobians, widely scaled SPD covariances (kappa <= 1e6); every identity, ordering, eigenvalue and limit clause is evaluated on the real functions' outputs.")
+CHECKS["C18"] = ("exploration", "4 C18",
+    "runtime monitoring: class wrapper on BMCI.weights comparing every window with the chi-square of every entry; predict/cdf/quantiles vs importance-weighted sums over the whole database in longdouble; permutation metamorphic relation",
+    "Hundreds of databases x observations (inside, edge, far outside -> NaN regime) x x2_max x permutations; window soundness decided exactly, estimates within derived weight-perturbation bounds.")
+CHECKS["C19"] = ("exploration", "4 C19",
+    "runtime monitoring: pinball-loss closed form, exhaustive minimiser search over sample points with exact Fraction order-statistic test, shape acceptance/rejection, mape/bias relations; icontract postconditions on quantile_score",
+    "Thousands of samples with ties/heavy tails, all shape forms and tau vectors; minimiser clause decided exhaustively for n <= 1000.")
+
 NOT_YET = {}
 
 
